@@ -62,7 +62,17 @@ enum Item {
 #[derive(Clone, Debug, PartialEq, Eq, Hash, Serialize, Deserialize)]
 enum Op {
 	Reg { on: u8, kind: Kind, name: u8 },
-	Sub { on: u8, sub: u8, unsub: u8 },
+	/// `raw`: `register_subscription_raw`; `notif`: 0 = the fixed notification name, k = the (k-1)-th method-name of the
+	/// alphabet used as notification name (notification names live in no table: they may coincide with anything)
+	Sub {
+		on: u8,
+		sub: u8,
+		unsub: u8,
+		#[serde(default)]
+		raw: bool,
+		#[serde(default)]
+		notif: u8,
+	},
 	Alias { on: u8, alias: u8, existing: u8 },
 	Merge { on: u8, items: Vec<Item> },
 	/// merge a copy of module `from` (shares its table with `from`) into module `on`
@@ -137,7 +147,8 @@ fn do_reg(m: &mut RpcModule<()>, model: &mut Model, reg: &mut u32, kind: Kind, n
 	StepRes { api: kind.api(), cond: if free { "name-free" } else { "name-taken" }, expected_ok: Some(free), got }
 }
 
-fn do_sub(m: &mut RpcModule<()>, model: &mut Model, reg: &mut u32, sub: &'static str, unsub: &'static str) -> StepRes {
+fn do_sub(m: &mut RpcModule<()>, model: &mut Model, reg: &mut u32, sub: &'static str, unsub: &'static str, raw: bool, notif: u8) -> StepRes {
+	let notif_name: &'static str = if notif == 0 { NOTIF_NAME } else { name_of(notif - 1) };
 	let r = *reg;
 	*reg += 1;
 	let tag = format!("s{r}");
@@ -153,23 +164,36 @@ fn do_sub(m: &mut RpcModule<()>, model: &mut Model, reg: &mut u32, sub: &'static
 	};
 	let ok = cond == "both-free";
 	let got = guard(|| {
-		m.register_subscription(sub, NOTIF_NAME, unsub, move |_, pending, _, _| {
-			let t = tag.clone();
-			async move {
-				let Ok(sink) = pending.accept().await else { return };
-				let msg = serde_json::value::to_raw_value(&t).expect("string serializes");
-				let _ = sink.send(msg).await;
-				// stay subscribed until unsubscribed or the receiver is dropped
-				sink.closed().await;
-			}
-		})
-		.is_ok()
+		if raw {
+			m.register_subscription_raw(sub, notif_name, unsub, move |_, pending, _, _| {
+				let t = tag.clone();
+				tokio::spawn(async move {
+					let Ok(sink) = pending.accept().await else { return };
+					let msg = serde_json::value::to_raw_value(&t).expect("string serializes");
+					let _ = sink.send(msg).await;
+					sink.closed().await;
+				});
+			})
+			.is_ok()
+		} else {
+			m.register_subscription(sub, notif_name, unsub, move |_, pending, _, _| {
+				let t = tag.clone();
+				async move {
+					let Ok(sink) = pending.accept().await else { return };
+					let msg = serde_json::value::to_raw_value(&t).expect("string serializes");
+					let _ = sink.send(msg).await;
+					// stay subscribed until unsubscribed or the receiver is dropped
+					sink.closed().await;
+				}
+			})
+			.is_ok()
+		}
 	});
 	if ok {
 		model.insert(sub, Bound::Sub(r));
 		model.insert(unsub, Bound::Unsub(r));
 	}
-	StepRes { api: "register_subscription", cond, expected_ok: Some(ok), got }
+	StepRes { api: if raw { "register_subscription_raw" } else { "register_subscription" }, cond, expected_ok: Some(ok), got }
 }
 
 fn do_alias(m: &mut RpcModule<()>, model: &mut Model, alias: &'static str, existing: &'static str) -> StepRes {
@@ -394,7 +418,7 @@ async fn build_items(
 	for it in items {
 		let res = match it {
 			Item::M(k, n) => do_reg(&mut other, &mut om, reg, *k, name_of(*n)),
-			Item::S(s, u) => do_sub(&mut other, &mut om, reg, name_of(*s), name_of(*u)),
+			Item::S(s, u) => do_sub(&mut other, &mut om, reg, name_of(*s), name_of(*u), (*s + *u) % 2 == 0, 0),
 		};
 		log.push(format!("  (module to merge) {it:?}: {} [{}] -> {:?}", res.api, res.cond, res.got));
 		if let Some(bad) = result_anomaly(&res) {
@@ -466,9 +490,9 @@ async fn run_sequence(ops: &[Op], probe_names: &[&'static str], ev: &mut Evidenc
 				target = *on as usize % n;
 				Some(do_reg(&mut mods[target], &mut models[target], &mut reg, *kind, name_of(*name)))
 			}
-			Op::Sub { on, sub, unsub } => {
+			Op::Sub { on, sub, unsub, raw, notif } => {
 				target = *on as usize % n;
-				Some(do_sub(&mut mods[target], &mut models[target], &mut reg, name_of(*sub), name_of(*unsub)))
+				Some(do_sub(&mut mods[target], &mut models[target], &mut reg, name_of(*sub), name_of(*unsub), *raw, *notif))
 			}
 			Op::Alias { on, alias, existing } => {
 				target = *on as usize % n;
@@ -670,7 +694,7 @@ fn gen_op(r: &mut Rng, used: &mut Vec<u8>) -> Op {
 			let sub = gen_name(r);
 			let unsub = gen_unsub(r, sub);
 			used.extend([sub, unsub]);
-			Op::Sub { on: gen_on(r), sub, unsub }
+			Op::Sub { on: gen_on(r), sub, unsub, raw: r.chance(1, 3), notif: if r.chance(1, 2) { 0 } else { 1 + gen_name(r) } }
 		}
 		39..=50 => {
 			let alias = gen_name(r);
@@ -718,7 +742,7 @@ fn exhaustive_alphabet() -> Vec<Op> {
 	}
 	for sub in 0..3u8 {
 		for unsub in 0..3u8 {
-			v.push(Op::Sub { on: 0, sub, unsub });
+			v.push(Op::Sub { on: 0, sub, unsub, raw: (sub + unsub) % 2 == 1, notif: if sub == 0 { 0 } else { 1 + (unsub + 1) % 3 } });
 		}
 	}
 	for alias in 0..3u8 {
@@ -743,7 +767,7 @@ fn exhaustive_alphabet() -> Vec<Op> {
 	v.push(Op::Clone { of: 0 });
 	v.push(Op::Reg { on: 1, kind: Kind::Sync, name: 0 });
 	v.push(Op::Remove { on: 1, name: 1 });
-	v.push(Op::Sub { on: 1, sub: 2, unsub: 0 });
+	v.push(Op::Sub { on: 1, sub: 2, unsub: 0, raw: true, notif: 2 });
 	v
 }
 
